@@ -19,6 +19,7 @@ generated side lemma `..._nat_sub_k` (proved by lia from the enclosing range / b
 conditions) so that truncated subtraction provably never differs from Python's.
 Anything else raises Abort (file:line) and the check reports the tie as broken."""
 import ast
+import re
 import os
 import sys
 
@@ -469,8 +470,14 @@ def translate_function(path, tree, name, ptypes, sigs, extra_env=None, coq_name=
 # ---- slices of GoalsAction.handle_tail_bound_*_goal -----------------------------------
 def is_after_loop_if(s, var):
     """if self.cli_args.after_loop: var = transform_to_after_loop(var)   (limit n -> oo; not modelled)"""
-    return (isinstance(s, ast.If) and not s.orelse and ast.unparse(s.test) == "self.cli_args.after_loop"
-            and len(s.body) == 1 and ast.unparse(s.body[0]) == f"{var} = transform_to_after_loop({var})")
+    if not (isinstance(s, ast.If) and not s.orelse and ast.unparse(s.test) == "self.cli_args.after_loop" and len(s.body) == 1):
+        return False
+    txt = ast.unparse(s.body[0])
+    if txt == f"{var} = transform_to_after_loop({var})":
+        return True
+    # elementwise form (repo a5d5e26): var = [transform_to_after_loop(b) for b in var]
+    m = re.fullmatch(rf"{re.escape(var)} = \[transform_to_after_loop\((\w+)\) for (\w+) in {re.escape(var)}\]", txt)
+    return bool(m and m.group(1) == m.group(2))
 
 
 def writes(node, var):
